@@ -172,6 +172,9 @@ func (t *tcpTransport) Receive(ctx context.Context) (envelope, error) {
 
 	t.ctxConn.SetReadContext(ctx)
 
+	// Every receive operation gets the whole budget, also the one that follows a refused envelope
+	t.limitedReader.N = t.ReadLimit
+
 	var raw rawEnvelope
 	if err := t.decoder.Decode(&raw); err != nil {
 		if errors.Is(err, io.EOF) {
@@ -181,7 +184,6 @@ func (t *tcpTransport) Receive(ctx context.Context) (envelope, error) {
 		return nil, fmt.Errorf("tcp transport: receive: %w", err)
 	}
 
-	t.limitedReader.N = t.ReadLimit
 	return raw.toEnvelope()
 }
 
